@@ -134,7 +134,8 @@ def run_framing(msgs, eof, sched, cuts=None, other=None):
         else Pct(srng, sched.get('depth', 2), sched.get('horizon', 300))
     sim = Sim(policy, max_decisions=200_000, spin_limit=sched.get('spin_limit', 1000))
     ncfg = sched.get('net', {})
-    netw = net.Network(net.NetConfig(nrng, ncfg.get('chunk', 'whole'), ncfg.get('latency', 'const')))
+    netw = net.Network(net.NetConfig(nrng, ncfg.get('chunk', 'whole'), ncfg.get('latency', 'const'),
+                                     short_send=ncfg.get('short_send', 0.0)))
     core.set_current(sim)
     net.set_network(netw)
     from sim import prims
@@ -394,7 +395,8 @@ def run_task(task):
                      'seed': rng.randrange(1 << 40), 'p_event': rng.choice((0.05, 0.3, 0.6)),
                      'depth': rng.choice((1, 2, 3)),
                      'net': {'chunk': rng.choice(('whole', 'few', 'crlf', 'bytes')),
-                             'latency': rng.choice(('const', 'uniform', 'heavy', 'outage'))}}
+                             'latency': rng.choice(('const', 'uniform', 'heavy', 'outage')),
+                             'short_send': rng.choice((0.0, 0.0, 0.3, 0.8))}}
             plan = {'family': 'S4', 'msgs': _plan_msgs(msgs), 'eof': eof, 'sched': sched,
                     'cuts': None}
             r = rng.random()
